@@ -280,13 +280,15 @@ def replay(ob):
     on the real CLI built from /repo."""
     m = re.search(r'Instr::(\w+)', ob.function)
     if not m or m.group(1) not in OPSYM:
-        return None, dict(note="no twin harness for this obligation")
+        return grid_replay(ob)
     name = m.group(1)
     res, _ = run_twins([name], playback=True, timeout=900)
     r = res[name]
     info = dict(twin_harness="vm::u1_twin::twin_" + name, twin_status=r['status'], twin_failed=r['failed'][:4])
     if r['status'] != E.FAILED or not r.get('playback') or len(r['playback']) < 2:
-        return None, info
+        ok, g = grid_replay(ob)
+        g.update(info)
+        return ok, g
     a, b = E.le_int(r['playback'][0]), E.le_int(r['playback'][1])
     op = OPSYM[name]
     info['counterexample'] = dict(a=a, b=b, op=op)
@@ -304,3 +306,44 @@ def replay(ob):
     if want is None:
         return None, info
     return (got != want), info
+
+
+def grid_replay(ob):
+    """No counterexample from a twin: search a grid of boundary operands for every operator
+    (variable and literal operand forms) on the real CLI against the exact-arithmetic oracle."""
+    MIN, MAX = -(1 << 63), (1 << 63) - 1
+    vals = [0, 1, -1, 2, -2, 3, -3, 7, 10, 62, 63, 64, MAX, MIN, MIN + 1, (1 << 32), (1 << 32) + 2, 3037000500]
+    cases = []
+    for op in '+-*/%^':
+        for a in vals:
+            for b in vals:
+                w = py_oracle(op, a, b)
+                if w is None:
+                    continue
+                if op == '^' and (b > 64 and abs(a) > 1) and b < (1 << 32):
+                    continue
+                cases.append((op, a, b, w))
+    lines = ["fn add(a: int, b: int) = a + b", "fn sub(a: int, b: int) = a - b", "fn mul(a: int, b: int) = a * b",
+             "fn div(a: int, b: int) = a / b", "fn rem(a: int, b: int) = a % b", "fn pow(a: int, b: int) = a ^ b"]
+    fname = {'+': 'add', '-': 'sub', '*': 'mul', '/': 'div', '%': 'rem', '^': 'pow'}
+    # errors stop the program: run error cases one program each is too slow, so split: value cases in one program
+    val_cases = [c for c in cases if c[3] not in ('overflow', 'divzero')]
+    err_cases = [c for c in cases if c[3] in ('overflow', 'divzero')]
+    prog = "\n".join(lines + ["println(%s(%s, %s))" % (fname[op], lit(a), lit(b)) for op, a, b, w in val_cases]) + "\n"
+    out, err, rc = abra_cli.run_program(prog, timeout=300)
+    got = out.strip().split("\n")
+    for i, (op, a, b, w) in enumerate(val_cases):
+        g = got[i] if i < len(got) else "<stopped: %s>" % (err.strip().split("\n")[0][:120])
+        if g != w:
+            ob.cex = dict(a=a, b=b, op=op)
+            return True, dict(counterexample=ob.cex, real_output=g, expected=w, program="%s(%s, %s)" % (fname[op], a, b))
+    import random
+    rnd = random.Random(int(os.environ.get("VERIF_SEED", "0") or 0))
+    for op, a, b, w in rnd.sample(err_cases, min(40, len(err_cases))):
+        prog = "\n".join(lines + ["println(%s(%s, %s))" % (fname[op], lit(a), lit(b))]) + "\n"
+        out, err, rc = abra_cli.run_program(prog)
+        g = 'overflow' if 'overflow' in (out + err) else 'divzero' if 'division by zero' in (out + err) else (out.strip() or err.strip()[:120])
+        if g != w:
+            ob.cex = dict(a=a, b=b, op=op)
+            return True, dict(counterexample=ob.cex, real_output=g, expected=w, program=prog)
+    return None, dict(note="no failing input in a grid of %d value cases and %d sampled error cases on the real CLI" % (len(val_cases), min(40, len(err_cases))))
